@@ -321,7 +321,9 @@ func (self *BinaryConv) unmarshalMap(ctx context.Context, resp http.ResponseSett
 		return wrapError(meta.ErrRead, "parse MapKey Tag error", err)
 	}
 	mapKeyDesc := fd.Key()
-	isIntKey := (mapKeyDesc.Type() == proto.INT32) || (mapKeyDesc.Type() == proto.INT64) || (mapKeyDesc.Type() == proto.UINT32) || (mapKeyDesc.Type() == proto.UINT64)
+	// JSON object keys are strings: every non-string key kind has to be quoted, exactly once
+	// (an INT64 key is already quoted by unmarshalSingular under Int642String)
+	isIntKey := mapKeyDesc.Type() != proto.STRING && !(mapKeyDesc.Type() == proto.INT64 && self.opts.Int642String)
 	if isIntKey {
 		*out = append(*out, '"')
 	}
